@@ -23,11 +23,11 @@ def gen_c20(rnd):
     nouns = [w for w in std if isinstance(w["speech"], dict) and "Noun" in w["speech"]] or std
     for _ in range(rnd.randint(2, 4)):
         w = rnd.choice(nouns)
-        shape = rnd.choice(["pw", "ws", "pws", "w", "pw_tail", "ws_tail", "pwp"])
+        shape = rnd.choice(["pw", "ws", "pws", "pws", "pws_tail", "w", "pw_tail", "ws_tail", "pwp"])
         p, s_ = rnd.choice(pre), rnd.choice(suf)
         tail = rnd.choice(["x", "漢"])
         inp = {"pw": p["reading"] + w["reading"], "ws": w["reading"] + s_["reading"], "pws": p["reading"] + w["reading"] + s_["reading"], "w": w["reading"],
-               "pw_tail": p["reading"] + w["reading"] + tail, "ws_tail": w["reading"] + s_["reading"] + tail, "pwp": p["reading"] + w["reading"] + par[0]["reading"]}[shape]
+               "pw_tail": p["reading"] + w["reading"] + tail, "pws_tail": p["reading"] + w["reading"] + s_["reading"] + tail, "ws_tail": w["reading"] + s_["reading"] + tail, "pwp": p["reading"] + w["reading"] + par[0]["reading"]}[shape]
         reqs.append({"kind": "convert", "input": inp, "context": "Normal", "plan": shape})
     return base, reqs
 
